@@ -15,6 +15,9 @@ OBLIGATIONS = [
     "Pkgcore.C07.builder_hash_history_independent",
     "Pkgcore.C07.instance_cache_transparent",
     "Pkgcore.C07.build_history_irrelevant",
+    "Pkgcore.C07.atom_match_depends_only_on_canon",
+    "Pkgcore.C07.atom_match_factors_through_canon",
+    "Pkgcore.C07.equal_atoms_same_c04_match",
 ]
 TRUSTED = [
     "CPython: hash of a tuple is a function of its members' hashes in order, hash of a frozenset a function of the set of members' hashes, "
@@ -22,9 +25,14 @@ TRUSTED = [
     "for members with lawful __eq__/__hash__ is mutual inclusion up to ==",
     "primitives left abstract in the model (every theorem holds for all of them): str.lower, re, user callables of FunctionRestriction, "
     "str(), iflatten_instance, match of identity-equality objects (AlwaysBool, Negate, AnyMatch, EqualityMatch)",
-    "atom.__eq__ / _hash are the C02 model (atom.__cmp__(other) == 0, the canonical tuple with cpv.ver_hash_key); atom.match is taken to be a "
-    "function of the atom's canonical form (category, package, operator, PMS value of version+revision, blocker kind, negate_vers, slot, sub-slot, "
-    "slot operator, sorted USE deps, repository): not proved here (C04 models atom.match), checked on differently spelled equal atoms",
+    "atom.__eq__ / _hash are the C02 model (atom.__cmp__(other) == 0, the canonical tuple with cpv.ver_hash_key); in the model's match, "
+    "atom.match is an environment function of the atom's canonical form (category, package, operator, PMS value of version+revision, blocker kind, "
+    "negate_vers, slot, sub-slot, slot operator, sorted USE deps, repository).  That the C04 model of atom.match (AndRestriction over "
+    "atom.restrictions, incl. =* and the USE restrictions of _parse_nontransitive_use) is such a function is proved "
+    "(atom_match_depends_only_on_canon, atom_match_factors_through_canon; valid versions, slot / sub-slot not the empty string, USE deps "
+    "non-conditional as in C04); trusted: the C04 model itself (C04's own correspondence run) and the record conversion C03.toC04 "
+    "(USE tokens lexed as _parse_nontransitive_use does; C03's subject).  Conditional USE deps (x?, x=) are outside C04's model: for them the "
+    "function-of-canonical-form reading stays sampled (differently spelled equal atoms are matched on the real code)",
     "ver_cmp is taken from the C01 model; version strings are lexed into its structure by the harness",
     "snakeoil GenericEquality (compare getattr(x, attr, sentinel) over __attr_comparison__) and cached_hash as read in snakeoil 0.11",
     "snakeoil WeakInstMeta as read in snakeoil 0.11: cls(*a, **kw) is a dict lookup of (a, sorted kw) in the class's weak __inst_dict__ of alive "
@@ -1426,10 +1434,12 @@ LEVEL_TEXT = ("Kernel-checked Lean 4 theorems about a model of __eq__/__hash__/m
               "restrictions match the same values for every nesting, environment and value (eq_implies_same_match, structural induction incl. "
               "_convert_ops normalisation, Revision comparison, frozenset attributes, tuple and set-based (DepSet) equality of children) and have "
               "equal hash keys (eq_implies_same_hash); a dict keyed by restrictions returns only values stored under an equal key, hence the value "
-              "computed for the query itself (cache_lookup_sound, caching_repo_sound) and always hits on an equal key (cache_hit_complete); a "
+              "computed for the query itself (cache_lookup_sound, caching_repo_sound) and always hits on an equal key (cache_hit_complete); C04's "
+              "model of atom.match gives one verdict for atoms with one C02 canonical form (atom_match_depends_only_on_canon: version respelling via the "
+              "C01 key / ver_hash_key, USE order via permutation invariance of the lexed deps), which is what the atom case of the model assumes; a "
               "description rebuilt bottom-up through instance caches that answer any constructor call with an alive equal instance matches what "
               "the description built alone matches, whatever was built before (instance_cache_transparent, build_history_irrelevant). Tied to "
               "the code by building pairs of real objects, comparing ==, hash and match with the model, evaluating the property directly on the "
               "real objects, and exercising caching_repo and the REQUIRED_USE lru_cache with equal keys.")
 LEVEL_NOTE = ("Trusted: CPython hash/dict/set semantics as stated; abstract primitives (re, str.lower, user functions); atom.match as a function of "
-              "the compared attributes (sampled only). Revision arguments restricted to None / cpv.Revision.")
+              "the compared attributes is proved for the C04 model (non-conditional USE deps), the C04 model and C03.toC04 are trusted here. Revision arguments restricted to None / cpv.Revision.")
